@@ -47,6 +47,7 @@ type input struct {
 	sent    int
 	session string // session id the server gave it (stat API), once known
 	seq     uint16
+	tcp     bool
 }
 
 type sub struct {
@@ -128,7 +129,7 @@ func (s *sys) pullDials() (pending, live []*world.Dial) {
 func (s *sys) Enabled() []string {
 	var ev []string
 	if s.nin < s.c.MaxInputs {
-		for _, k := range []string{"In:rtmp", "In:rtsp", "In:cust", "In:ps"} {
+		for _, k := range []string{"In:rtmp", "In:rtsp", "In:cust", "In:ps", "In:pstcp"} {
 			if s.has(k) {
 				ev = append(ev, k)
 			}
@@ -305,9 +306,14 @@ func (s *sys) Apply(ev string) error {
 		if e == nil && curBefore == nil {
 			s.accept(in)
 		}
-	case "In:ps":
+	case "In:ps", "In:pstcp":
 		in := newIn("ps")
-		r := w.SM.CtrlStartRtpPub(base.ApiCtrlStartRtpPubReq{StreamName: stream, Port: 0, TimeoutMs: 0})
+		tcp := 0
+		if ev == "In:pstcp" {
+			tcp = 1
+			in.tcp = true
+		}
+		r := w.SM.CtrlStartRtpPub(base.ApiCtrlStartRtpPubReq{StreamName: stream, Port: 0, TimeoutMs: 0, IsTcpFlag: tcp})
 		ok := r.ErrorCode == base.ErrorCodeSucc
 		if ok {
 			w.PsExpected++
@@ -698,7 +704,7 @@ func (s *sys) Fingerprint() string {
 	sb.WriteString(strings.ReplaceAll(s.w.Dump(), fmt.Sprintf("w%d-", s.w.ID), "w-"))
 	k := "none"
 	if s.cur != nil {
-		k = fmt.Sprintf("%s sent=%d", s.cur.kind, minI(s.cur.sent, 2))
+		k = fmt.Sprintf("%s tcp=%v sent=%d", s.cur.kind, s.cur.tcp, minI(s.cur.sent, 2))
 	}
 	fmt.Fprintf(&sb, " |cur=%s nin=%d subs=%d oldCust=%v api=%v ps=%d", k, s.nin, len(s.subs), s.oldCust != nil, s.apiOn, s.w.PsExpected)
 	pend, live := s.pullDials()
@@ -721,7 +727,7 @@ func configs(r *vk.Run) []cfg {
 	cs = append(cs, cfg{Name: "publishers", Alphabet: []string{"In:rtmp", "In:rtsp", "In:cust", "Out", "KickIn", "P", "J", "FeedOld"}, MaxSubs: 1, MaxInputs: 3})
 	cs = append(cs, cfg{Name: "publishers+ps", Alphabet: []string{"In:rtmp", "In:ps", "In:cust", "Out", "KickIn", "P", "J", "T"}, MaxSubs: 1, MaxInputs: 3})
 	cs = append(cs, cfg{Name: "pull-vs-publishers", Alphabet: []string{"In:rtmp", "In:rtsp", "In:cust", "In:ps", "Out", "KickIn", "P", "J", "ApiStart", "T"}, MaxSubs: 1, MaxInputs: 2})
-	cs = append(cs, cfg{Name: "rtsp-vs-ps", Alphabet: []string{"In:rtsp", "In:ps", "Out", "KickIn", "P", "J"}, MaxSubs: 1, MaxInputs: 3})
+	cs = append(cs, cfg{Name: "rtsp-vs-ps", Alphabet: []string{"In:rtsp", "In:ps", "In:pstcp", "Out", "KickIn", "P", "J"}, MaxSubs: 1, MaxInputs: 3})
 	cs = append(cs, cfg{Name: "subscribers", Alphabet: []string{"In:rtmp", "In:rtsp", "Out", "P", "J", "KickSub", "T"}, MaxSubs: 2, MaxInputs: 2})
 	if !r.Quick() {
 		cs = append(cs, cfg{Name: "everything", Alphabet: []string{"In:rtmp", "In:rtsp", "In:cust", "In:ps", "Out", "KickIn", "P", "J", "KickSub", "FeedOld", "ApiStart", "T"}, MaxSubs: 2, MaxInputs: 3})
